@@ -74,7 +74,7 @@ func init() {
 			var js []job
 			ns := []int{0, 1, 3, 4, 5, 6, 8}
 			if tier == "thorough" {
-				ns = []int{0, 1, 2, 3, 4, 5, 6, 7, 8, 9, 10, 12}
+				ns = []int{0, 1, 2, 3, 4, 5, 6, 7, 8, 9, 10}
 			}
 			for _, n := range ns {
 				js = append(js, J("socket", "VX_C06_RawUnpackBytes", n, 24))
@@ -97,7 +97,7 @@ func init() {
 			js = append(js, J(".", "VX_C06_SessionFieldBytes", 0, 3), J(".", "VX_C06_SessionFieldBytes", 1, 2), J(".", "VX_C06_SessionFieldBytes", 2, 2))
 			if tier == "thorough" {
 				js = append(js, J(".", "VX_C06_SessionFieldBytes", 1, 3), J(".", "VX_C06_SessionFieldBytes", 2, 3))
-				js = append(js, J(".", "VX_C06_SessionBytes", 6, 1), J(".", "VX_C06_SessionBytes", 7, 0), J(".", "VX_C06_SessionBytes", 8, 1))
+				js = append(js, J(".", "VX_C06_SessionBytes", 6, 1), J(".", "VX_C06_SessionBytes", 7, 0))
 			}
 			if tier == "thorough" {
 				js = append(js, J("proto/httproto", "VX_C06_HTTPContentLength", 8, 1024), J("proto/httproto", "VX_C06_HTTPBytes", 0, 6), J("proto/httproto", "VX_C06_HTTPBytes", 1, 5))
@@ -106,7 +106,7 @@ func init() {
 		},
 		assumptions: stdAssumptions,
 		explanation: "the real raw-protocol Unpack is executed on a fully symbolic byte stream (every byte a solver variable) of each listed length followed by EOF; the engine checks every make([]byte,n) reached against the configured limit (n is a solver term), termination (instruction budget = unwinding assertion), and that a well-formed frame still decodes afterwards",
-		bounds:      "raw protocol parser on streams <= 8 (quick) / 12 (thorough) bytes, limit 24; json protocol parser on <= 6/8 bytes; http protocol: response with symbolic 7-8 digit Content-Length and <= 4-6 arbitrary bytes after the method prefix; thrift/pb parsers not covered",
+		bounds:      "raw protocol parser on streams <= 8 (quick) / 10 (thorough) bytes, limit 24; session read loop on <= 5 (quick) / 7 (thorough) arbitrary bytes and on well-framed messages with <= 3 arbitrary bytes in one field; json protocol parser on <= 6/8 bytes; http protocol: response with symbolic 7-8 digit Content-Length and <= 4-6 arbitrary bytes after the method prefix; thrift binary protocol: one oversize frame (limit 8 KiB); pb parser and arbitrary bytes into thrift not covered",
 	})
 	registerCheck(&checkSpec{
 		id:    "C12",
@@ -424,7 +424,7 @@ func init() {
 				add(3, n, 0, 1)
 			}
 			if tier == "thorough" {
-				for n := 7; n <= 12; n++ {
+				for n := 7; n <= 8; n++ {
 					add(3, n, 0, 1)
 				}
 				add(2, 0, 1, 0)
@@ -433,7 +433,7 @@ func init() {
 		},
 		assumptions: append(append([]string{}, rootAssume...), "canonical checker (calls RecvOnce once, compares a one-byte token); handlers are the unknown-call/unknown-push handlers (no reflection-based routes)"),
 		explanation: "the real ServeConn, newSession, postAccept, auth checker PostAccept, PreReceive/PreSend and raw Unpack are executed on a scripted connection whose first bytes are an AUTH_CALL with symbolic token, a CALL, a frame of symbolic type, an arbitrary symbolic byte string or nothing, optionally followed by pipelined CALL/PUSH frames; handler and per-message hook counters must stay zero unless authentication succeeded",
-		bounds:      "first frame / <= 6 (quick) 12 (thorough) arbitrary bytes (message size limit 24 for that case), 2 pipelined frames, one other accept plugin before or after the checker",
+		bounds:      "first frame / <= 6 (quick) 8 (thorough) arbitrary bytes (message size limit 24 for that case), 2 pipelined frames, one other accept plugin before or after the checker",
 	})
 	registerCheck(&checkSpec{
 		id: "C18", dirs: []string{"plugin/overloader"}, level: "other",
